@@ -10,7 +10,9 @@
 package c09
 
 import (
+	"bytes"
 	"context"
+	"errors"
 	"fmt"
 	"os"
 	"path/filepath"
@@ -27,6 +29,7 @@ import (
 
 	"verifharness/evid"
 	"verifharness/hx"
+	"verifharness/memstore"
 )
 
 var stats = evid.New("C09", "rapid: 2-4 repositories with prefix-related names (a, ab, a-b, abc, ...), 0-3 bundles each drawn as subsets of a shared pool of paths with shared / alternative contents (shared blobs, optionally the same bundle ID in several repos), entries per index file in {1,2,3,1000} through the verif hook (multi-index bundles), labels, plain or CRC stores, optionally the file list of an interrupted upload (no bundle.yaml) in a repository; then 1-2 operations among DeleteRepo, RenameRepo (new name absent / present / itself), DeleteEntriesFromRepo (paths present, absent, near misses, all files of a bundle, positions in the first / middle / last index file), DeleteBundle, DeleteLabel, CreateRepo, on existing and absent repositories. Oracle: map model + archive key-layout model: after each operation the raw diff of the three stores is exactly the predicted one and the touched repositories are listed and downloaded through datamon; at the end all repositories are. Concurrent CreateRepo: 2-4 creators of one name under the memstore scheduler (all interleavings of their store calls enumerated in the pinned test, drawn in the property) and free running. Input classes of listed known findings are excluded and counted (excluded_<id>). Non-trivial: the target repository name is a proper prefix of / has as proper prefix another existing repository, or delete-files touches a bundle with >= 2 index files; distinct by (operation, outcome, prefix relation, hit class, index class).")
@@ -96,7 +99,13 @@ type opSpec struct {
 	Label    string `json:"label,omitempty"`     // dellabel: literal name (pinned cases) ...
 	LabelIdx int    `json:"label_idx,omitempty"` // ... or index into the labels of the target; -1: a label that does not exist
 	Sels     []selT `json:"sels,omitempty"`
+	// FaultNth (rename): the Nth write under the new repository's bundles fails once. A rename that reports the
+	// failure must have left the old repository as it was (the case ends there); one that reports success is
+	// checked like any other
+	FaultNth int `json:"fault_nth,omitempty"`
 }
+
+var errCaseEnds = errors.New("the case ends after a refused operation")
 
 type caseT struct {
 	Leaf  uint32        `json:"leaf"`
@@ -240,6 +249,9 @@ func drawCase(t *rapid.T) caseT {
 		switch op.Kind {
 		case "rename":
 			op.New = pickName("newname", 25)
+			if pick(t, "rename_fault", 4) == 0 {
+				op.FaultNth = 1 + pick(t, "rename_fault_nth", 8)
+			}
 		case "create":
 			op.Repo = pickName("createname", 30)
 		case "delbundle":
@@ -748,7 +760,32 @@ func (r *runner) runOp(op opSpec) error {
 				info.Hit = "onto-itself"
 			}
 		}
-		err = core.RenameRepo(op.Repo, op.New, r.stores)
+		if op.FaultNth > 0 && expectOK {
+			fv := r.env.Actor("renamer")
+			mf := &memstore.Fault{Op: memstore.OpPut, KeySub: "bundles/" + op.New + "/", Nth: op.FaultNth, Times: 1}
+			fv.Meta.AddFault(mf)
+			err = core.RenameRepo(op.Repo, op.New, fv.Stores)
+			if mf.Hits > 0 {
+				stats.Count("rename_with_transient_write_failure", 1)
+			}
+			if mf.Hits > 0 && err != nil {
+				after := takeSnap(r.env)
+				for _, k := range ownedBy(op.Repo) {
+					b, inMeta := before.meta[k]
+					a := after.meta[k]
+					if !inMeta {
+						b, a = before.vmeta[k], after.vmeta[k]
+					}
+					if a == nil || !bytes.Equal(a, b) {
+						return fmt.Errorf("%s failed (%v) after one refused write, but %q of the old repository is gone or altered", what, err, k)
+					}
+				}
+				stats.Count("rename_refused_old_repo_intact", 1)
+				return errCaseEnds
+			}
+		} else {
+			err = core.RenameRepo(op.Repo, op.New, r.stores)
+		}
 		if expectOK {
 			for _, k := range ownedBy(op.Repo) {
 				wantRemoved[k] = true
@@ -1116,6 +1153,9 @@ func runCase(c caseT) (caseInfo, error) {
 	}
 	for _, op := range c.Ops {
 		if err := r.runOp(op); err != nil {
+			if err == errCaseEnds {
+				return r.info, nil
+			}
 			return r.info, err
 		}
 		whats = append(whats, op.Kind+" "+op.Repo)
